@@ -87,7 +87,7 @@ package pfcp
 //@ func (s *Sess) CreateFAR(req *ie.IE) (err error)
 //@   requires sessOK(s) && req != nil
 //@   ensures [ok]    sessOK(s)
-//@   ensures [frameok]  forall t *Sess :: old(allocated(t)) && old(sessOK(t)) && old(sep2(t, s)) ==> sessOK(t)
+//@   ensures [frameok] forall t *Sess :: old(allocated(t)) && old(sessOK(t)) && old(sep2(t, s)) ==> sessOK(t)
 //@   ensures [rec]   ok(req.FARID()) ==> val(req.FARID()) in s.FARIDs
 //@   ensures [mono]  forall id uint32 :: id in old(s.FARIDs) ==> id in s.FARIDs
 //@   ensures [isol]  forall k RuleKey :: k.seid != s.LocalID ==> ((k in DP) == (k in old(DP)))
@@ -112,13 +112,12 @@ package pfcp
 //@ func (s *Sess) RemoveFAR(req *ie.IE) (err error)
 //@   requires sessOK(s) && req != nil
 //@   ensures [ok]    sessOK(s)
-//@   ensures [frameok]  forall t *Sess :: old(allocated(t)) && old(sessOK(t)) && old(sep2(t, s)) ==> sessOK(t)
+//@   ensures [frameok] forall t *Sess :: old(allocated(t)) && old(sessOK(t)) && old(sep2(t, s)) ==> sessOK(t)
 //@   ensures [gone]  ok(req.FARID()) && val(req.FARID()) in old(s.FARIDs) ==> !(RuleKey(s.LocalID, 2, uint64(val(req.FARID()))) in DP)
 //@   ensures [sub]   forall k RuleKey :: k in DP ==> k in old(DP)
 //@   ensures [isol]  forall k RuleKey :: k.seid != s.LocalID ==> ((k in DP) == (k in old(DP)))
 //@   ensures [keys]  forall id uint32 :: id in s.FARIDs ==> id in old(s.FARIDs)
 //@   ensures [del]   err == nil ==> !(val(req.FARID()) in s.FARIDs)
-//@   ensures [keep]  err != nil && ok(req.FARID()) ==> (forall id uint32 :: id in old(s.FARIDs) ==> id in s.FARIDs)
 //@   modifies s.FARIDs[_], DP
 //@   reveal sessOK
 //@   serves C01 C05 C07
@@ -128,7 +127,7 @@ package pfcp
 //@ func (s *Sess) CreateQER(req *ie.IE) (err error)
 //@   requires sessOK(s) && req != nil
 //@   ensures [ok]    sessOK(s)
-//@   ensures [frameok]  forall t *Sess :: old(allocated(t)) && old(sessOK(t)) && old(sep2(t, s)) ==> sessOK(t)
+//@   ensures [frameok] forall t *Sess :: old(allocated(t)) && old(sessOK(t)) && old(sep2(t, s)) ==> sessOK(t)
 //@   ensures [rec]   ok(req.QERID()) ==> val(req.QERID()) in s.QERIDs
 //@   ensures [mono]  forall id uint32 :: id in old(s.QERIDs) ==> id in s.QERIDs
 //@   ensures [isol]  forall k RuleKey :: k.seid != s.LocalID ==> ((k in DP) == (k in old(DP)))
@@ -153,13 +152,12 @@ package pfcp
 //@ func (s *Sess) RemoveQER(req *ie.IE) (err error)
 //@   requires sessOK(s) && req != nil
 //@   ensures [ok]    sessOK(s)
-//@   ensures [frameok]  forall t *Sess :: old(allocated(t)) && old(sessOK(t)) && old(sep2(t, s)) ==> sessOK(t)
+//@   ensures [frameok] forall t *Sess :: old(allocated(t)) && old(sessOK(t)) && old(sep2(t, s)) ==> sessOK(t)
 //@   ensures [gone]  ok(req.QERID()) && val(req.QERID()) in old(s.QERIDs) ==> !(RuleKey(s.LocalID, 3, uint64(val(req.QERID()))) in DP)
 //@   ensures [sub]   forall k RuleKey :: k in DP ==> k in old(DP)
 //@   ensures [isol]  forall k RuleKey :: k.seid != s.LocalID ==> ((k in DP) == (k in old(DP)))
 //@   ensures [keys]  forall id uint32 :: id in s.QERIDs ==> id in old(s.QERIDs)
 //@   ensures [del]   err == nil ==> !(val(req.QERID()) in s.QERIDs)
-//@   ensures [keep]  err != nil && ok(req.QERID()) ==> (forall id uint32 :: id in old(s.QERIDs) ==> id in s.QERIDs)
 //@   modifies s.QERIDs[_], DP
 //@   reveal sessOK
 //@   serves C01 C05 C07
@@ -169,7 +167,7 @@ package pfcp
 //@ func (s *Sess) CreateBAR(req *ie.IE) (err error)
 //@   requires sessOK(s) && req != nil
 //@   ensures [ok]    sessOK(s)
-//@   ensures [frameok]  forall t *Sess :: old(allocated(t)) && old(sessOK(t)) && old(sep2(t, s)) ==> sessOK(t)
+//@   ensures [frameok] forall t *Sess :: old(allocated(t)) && old(sessOK(t)) && old(sep2(t, s)) ==> sessOK(t)
 //@   ensures [rec]   ok(req.BARID()) ==> val(req.BARID()) in s.BARIDs
 //@   ensures [mono]  forall id uint8 :: id in old(s.BARIDs) ==> id in s.BARIDs
 //@   ensures [isol]  forall k RuleKey :: k.seid != s.LocalID ==> ((k in DP) == (k in old(DP)))
@@ -194,13 +192,12 @@ package pfcp
 //@ func (s *Sess) RemoveBAR(req *ie.IE) (err error)
 //@   requires sessOK(s) && req != nil
 //@   ensures [ok]    sessOK(s)
-//@   ensures [frameok]  forall t *Sess :: old(allocated(t)) && old(sessOK(t)) && old(sep2(t, s)) ==> sessOK(t)
+//@   ensures [frameok] forall t *Sess :: old(allocated(t)) && old(sessOK(t)) && old(sep2(t, s)) ==> sessOK(t)
 //@   ensures [gone]  ok(req.BARID()) && val(req.BARID()) in old(s.BARIDs) ==> !(RuleKey(s.LocalID, 5, uint64(val(req.BARID()))) in DP)
 //@   ensures [sub]   forall k RuleKey :: k in DP ==> k in old(DP)
 //@   ensures [isol]  forall k RuleKey :: k.seid != s.LocalID ==> ((k in DP) == (k in old(DP)))
 //@   ensures [keys]  forall id uint8 :: id in s.BARIDs ==> id in old(s.BARIDs)
 //@   ensures [del]   err == nil ==> !(val(req.BARID()) in s.BARIDs)
-//@   ensures [keep]  err != nil && ok(req.BARID()) ==> (forall id uint8 :: id in old(s.BARIDs) ==> id in s.BARIDs)
 //@   modifies s.BARIDs[_], DP
 //@   reveal sessOK
 //@   serves C01 C05 C07
